@@ -1181,3 +1181,46 @@ impl<'a> Serializer<'a> {
         Ok(true)
     }
 }
+
+#[cfg(feature = "verif-hooks")]
+impl<'a> Serializer<'a> {
+    /// Serializer whose output buffer already holds `buffer` (must be valid UTF-8, as every writer guarantees)
+    pub fn verif_with_buffer(
+        options: &'a Options<'a>,
+        map: &'a CodeMap,
+        span: Span,
+        buffer: Vec<u8>,
+    ) -> Self {
+        let mut s = Self::new(options, map, false, span);
+        s.buffer = buffer;
+        s
+    }
+
+    pub fn verif_visit_unquoted_string(&mut self, s: &str) {
+        self.visit_unquoted_string(s)
+    }
+
+    pub fn verif_visit_quoted_string(&mut self, s: &str) {
+        self.visit_quoted_string(false, s)
+    }
+
+    pub fn verif_write_float(&mut self, f: f64) {
+        self.write_float(f)
+    }
+
+    pub fn verif_write_media_query(&mut self, q: &MediaQuery) {
+        self.write_media_query(q)
+    }
+
+    pub fn verif_is_symmetrical_hex(channel: u32) -> bool {
+        Self::is_symmetrical_hex(channel)
+    }
+
+    pub fn verif_can_use_short_hex(color: &Color) -> bool {
+        Self::can_use_short_hex(color)
+    }
+
+    pub fn verif_buffer(self) -> Vec<u8> {
+        self.buffer
+    }
+}
